@@ -7,9 +7,31 @@ reflects out of the real AST through `serde::Serializer`) seen as the tree the d
 impls walk (`Visit.Val`).  Hooks are looked up in the schema: the type-level hook of the
 definition, the field-level hook of each field of the active variant; `Option`/`Vec`/`Box` are
 `seq`; primitives are leaves.  The node's `data` is the variant index.
+
+A field-level hook on a field of type `Vec<T>` is emitted by the derive once per ELEMENT
+(`for item in &self.f { pre_h(item)?; item.visit(visitor)?; post_h(item)?; }`, derive/src/lib.rs
+`visit_field`), not around the field.  That loop is, statement for statement, the body the derive
+generates for a hook-less struct whose fields are the elements, each carrying the hook `h`; so such a
+field is reflected as `(none, eachNode …)`: a node without type-level hook whose kids are the
+elements, each with the field-level hook (`hookedVec`).  The generic walk of `Model/Visit.lean` and its
+theorems apply unchanged.  A hooked field of any other type keeps the hook around the field.
 -/
 namespace SqlVerif.Reflect
 open SqlVerif.Schema
+
+/-- the `ty` of the node standing for a hooked `Vec` field: the first id that is not a type of the schema -/
+def eachTy (sch : Schema) : Nat := sch.defs.length
+
+/-- a `Vec` whose elements are each visited between the `pre`/`post` callbacks of the field-level
+    hook `h`; `data` is the number of elements -/
+def hookedVec (sch : Schema) (h : Nat) (elems : List Visit.Val) : Visit.Val :=
+  .node (eachTy sch) elems.length none (elems.map fun e => (some h, e))
+
+/-- a reflected field with its field-level hook: around each element for a `Vec` field (whose
+    reflection is the `seq` of its elements), around the field otherwise -/
+def hookField (sch : Schema) : Option Nat → Ty → Visit.Val → Option Nat × Visit.Val
+  | some h, .vec _, .seq elems => (none, hookedVec sch h elems)
+  | hk, _, x => (hk, x)
 
 mutual
 def toVisit (sch : Schema) : Ty → Serde.Val → Visit.Val
@@ -37,7 +59,7 @@ def toVisitTup (sch : Schema) : List Ty → List Serde.Val → List Visit.Val
   | t :: ts, v :: vs => toVisit sch t v :: toVisitTup sch ts vs
   | _, _ => []
 def toVisitFields (sch : Schema) : List Field → List Serde.Val → List (Option Nat × Visit.Val)
-  | f :: fs, v :: vs => (f.hook, toVisit sch f.ty v) :: toVisitFields sch fs vs
+  | f :: fs, v :: vs => hookField sch f.hook f.ty (toVisit sch f.ty v) :: toVisitFields sch fs vs
   | _, _ => []
 end
 
